@@ -19,8 +19,8 @@ var (
 	reRT  = regexp.MustCompile("^ALTER TABLE `([^`]*)` RENAME TO `([^`]*)`$")
 	reAC  = regexp.MustCompile("^ALTER TABLE `([^`]*)` ADD COLUMN `([^`]*)` ")
 	reDC  = regexp.MustCompile("^ALTER TABLE `([^`]*)` DROP COLUMN `([^`]*)`$")
-	reCI  = regexp.MustCompile("^CREATE (UNIQUE )?INDEX `([^`]*)` ON `([^`]*)` \\(")
-	reDI  = regexp.MustCompile("^DROP INDEX `([^`]*)`$")
+	reCI  = regexp.MustCompile("^CREATE (UNIQUE )?INDEX `((?:[^`]|``)*)` ON `([^`]*)` \\(")
+	reDI  = regexp.MustCompile("^DROP INDEX `((?:[^`]|``)*)`$")
 	reCP  = regexp.MustCompile("^INSERT INTO `([^`]*)` \\((.*?)\\) SELECT (.*) FROM `([^`]*)`$")
 	reIfN = regexp.MustCompile("^IFNULL\\(`([^`]*)`, (.*)\\) AS `([^`]*)`$")
 )
@@ -69,9 +69,9 @@ func stmtSkel(cmd string) string {
 		return "DC(" + m[1] + "." + m[2] + ")"
 	case reCI.MatchString(cmd):
 		m := reCI.FindStringSubmatch(cmd)
-		return "CI(" + m[3] + "." + m[2] + ":" + b01(m[1] != "") + ")"
+		return "CI(" + m[3] + "." + strings.ReplaceAll(m[2], "``", "`") + ":" + b01(m[1] != "") + ")"
 	case reDI.MatchString(cmd):
-		return "DI(" + reDI.FindStringSubmatch(cmd)[1] + ")"
+		return "DI(" + strings.ReplaceAll(reDI.FindStringSubmatch(cmd)[1], "``", "`") + ")"
 	case reCP.MatchString(cmd):
 		m := reCP.FindStringSubmatch(cmd)
 		var tc, fe []string
